@@ -149,6 +149,11 @@ def run(ctx):
 
     # MC: the property holds on the specification, all interleavings within the bounds (three factored families)
     cov = not quick
+    # unbounded in depth: the uniqueness invariant of the id counter is inductive (Apalache), and the same
+    # obligation fails for the unsynchronised read/write pair (spec/proofs/CidCounter.tla)
+    ctx.apalache("proofs", "CidCounter", "apalache_atomic.cfg", "Init", "IndInv", 0)
+    ctx.apalache("proofs", "CidCounter", "apalache_atomic.cfg", "IndInit", "IndInv", 1)
+    ctx.apalache("proofs", "CidCounter", "apalache_nonatomic.cfg", "IndInit", "IndInv", 1, expect_error=True)
     ctx.tlc("logger", "LoggerCid", "MC_LoggerCid_ids.cfg", coverage=cov)
     ctx.tlc("logger", "LoggerCid", "MC_LoggerCid_lines.cfg", coverage=cov)
     ctx.tlc("logger", "LoggerCid", "MC_LoggerCid.quick.cfg", coverage=cov)
